@@ -30,7 +30,7 @@ pub static SPEC: PropSpec = PropSpec {
     case_cpu_s: 20,
     shards: 0,
     run,
-    floors: &[("queries", 20_000, 1_000_000), ("hover_agreement_checked", 200, 5_000), ("dot_items_checked", 50, 1_000), ("colon_items_checked", 50, 1_000), ("insertions_typechecked", 50, 1_000), ("qualified_path_nonempty_answers", 100, 3_000), ("queries_inside_a_character", 60, 60)],
+    floors: &[("queries", 20_000, 1_000_000), ("hover_agreement_checked", 200, 5_000), ("dot_items_checked", 50, 1_000), ("colon_items_checked", 50, 1_000), ("insertions_typechecked", 50, 1_000), ("qualified_path_nonempty_answers", 100, 3_000), ("queries_inside_a_character", 60, 60), ("hover_pattern_binders_checked", 1_000, 30_000)],
     finish: None,
 };
 
@@ -290,6 +290,119 @@ fn agreement_hover(case: &mut Case, rng: &mut Rng) {
         }
     }
     case.sample(json!({"workload":"hover_agreement","text": util::truncate(&src[DECLS.len()..], 400)}));
+}
+
+/// hover on pattern binders of programs that have MORE patterns than expressions (nested tuple / struct / constructor
+/// patterns, arm bodies that are single literals), in functions placed first, in the middle and last in the file
+fn agreement_hover_patterns(case: &mut Case, rng: &mut Rng) {
+    let decls = "struct Px { r: int32, g: bool, name: string }\nenum Col { Rgb(int32, int32, int32), Named(string), Gray(bool) }\n";
+    // one match function: `@name:type@` marks a binder and its type
+    let nfn = 2 + rng.below(3);
+    let mut src = String::from(decls);
+    let mut probes: Vec<(usize, &'static str, String)> = Vec::new();
+    let mut uniq = 0usize;
+    let mut binder = |src: &mut String, probes: &mut Vec<(usize, &'static str, String)>, ty: &'static str| {
+        uniq += 1;
+        let n = format!("b{}", uniq);
+        probes.push((src.len(), ty, n.clone()));
+        src.push_str(&n);
+    };
+    for k in 0..nfn {
+        src.push_str(&format!("fn pick{}(c: Col, p: Px, t: (int32, (bool, string))) -> int32 {{\n    match (c, p, t) {{\n", k));
+        let arms = 2 + rng.below(3);
+        for a in 0..arms {
+            src.push_str("        (");
+            match (a + k) % 3 {
+                0 => {
+                    src.push_str("Col::Rgb(");
+                    binder(&mut src, &mut probes, "int32");
+                    src.push_str(", ");
+                    binder(&mut src, &mut probes, "int32");
+                    src.push_str(", ");
+                    binder(&mut src, &mut probes, "int32");
+                    src.push(')');
+                }
+                1 => {
+                    src.push_str("Col::Named(");
+                    binder(&mut src, &mut probes, "string");
+                    src.push(')');
+                }
+                _ => {
+                    src.push_str("Col::Gray(");
+                    binder(&mut src, &mut probes, "bool");
+                    src.push(')');
+                }
+            }
+            src.push_str(", Px { r: ");
+            binder(&mut src, &mut probes, "int32");
+            src.push_str(", g: ");
+            binder(&mut src, &mut probes, "bool");
+            src.push_str(", name: ");
+            binder(&mut src, &mut probes, "string");
+            src.push_str(" }, (");
+            binder(&mut src, &mut probes, "int32");
+            src.push_str(", (");
+            binder(&mut src, &mut probes, "bool");
+            src.push_str(", ");
+            binder(&mut src, &mut probes, "string");
+            src.push_str(&format!("))) => {},\n", a + 1));
+        }
+        src.push_str("        (");
+        binder(&mut src, &mut probes, "Col");
+        src.push_str(", ");
+        binder(&mut src, &mut probes, "Px");
+        src.push_str(", ");
+        binder(&mut src, &mut probes, "(int32, (bool, string))");
+        src.push_str(") => 0,\n    }\n}\n");
+    }
+    src.push_str("fn main() -> unit {\n    let ");
+    probes.push((src.len(), "Px", "px".into()));
+    src.push_str("px: Px = Px { r: 1, g: true, name: \"n\" };\n    let _ = pick0(Col::Gray(true), px, (1, (true, \"s\")));\n    ()\n}\n");
+    runner::note_input(&src);
+    match runner::guard(|| typecheck_errors(&src)) {
+        Ok(Ok(errs)) if errs.is_empty() => {}
+        Ok(Ok(errs)) => {
+            case.count("template_rejected", 1);
+            case.inconclusive(format!("pattern hover template rejected by the typer: {}", util::truncate(&errs.join("; "), 200)));
+            return;
+        }
+        _ => {
+            case.count("template_rejected", 1);
+            return;
+        }
+    }
+    for (off, ty, name) in probes {
+        let (l, c) = line_col(&src, off);
+        case.count("queries", 1);
+        case.count("queries_agreement", 1);
+        case.nontrivial(hash_str(&src) ^ (off as u64).wrapping_mul(0x9E3779B97F4A7C15));
+        match runner::guard(|| query::hover_type(p(), &src, l, c)) {
+            Ok(Ok(got)) => {
+                case.count("hover_agreement_checked", 1);
+                case.count("hover_pattern_binders_checked", 1);
+                if norm(&got) != norm(ty) {
+                    case.violation(
+                        format!("hover-disagrees:pattern-binder:{}", norm(ty)),
+                        format!("hover on the pattern binder {} of type `{}` reports `{}`", name, ty, got),
+                        json!({"input": src, "line": l, "col": c, "expected": ty, "got": got, "what": "pattern binder in a pattern-dense program"}),
+                    );
+                    return;
+                }
+            }
+            Ok(Err(e)) => {
+                case.violation(
+                    format!("hover-missing:pattern-binder:{}", norm(ty)),
+                    format!("hover on the pattern binder {} of type `{}` returns an error: {}", name, ty, e),
+                    json!({"input": src, "line": l, "col": c, "expected": ty, "error": e}),
+                );
+                return;
+            }
+            Err(pn) => {
+                case.violation(runner::panic_signature(&pn), format!("hover panicked at {}", pn.site), json!({"input": src, "line": l, "col": c}));
+                return;
+            }
+        }
+    }
 }
 
 /// (statement text with `@` marking the hover position, expected type, what)
@@ -671,6 +784,9 @@ fn run(ctx: &mut Ctx) {
         ctx.case(&format!("dot_agree/{}/{}", ctx.shard, i), |c| agreement_dot(c, &mut rng));
         ctx.case(&format!("colon_agree/{}/{}", ctx.shard, i), |c| agreement_colon(c, &mut rng));
         ctx.case(&format!("colon_agree_qualified/{}/{}", ctx.shard, i), |c| agreement_colon_qualified(c, &mut rng));
+        if i % 8 == 0 {
+            ctx.case(&format!("hover_agree_patterns/{}/{}", ctx.shard, i), |c| agreement_hover_patterns(c, &mut rng));
+        }
     }
     // texts with multi-byte characters in strings, comments and next to `.` / `::`: every byte column of every line
     {
